@@ -68,6 +68,9 @@ def cases(tier, seed):
                     dict(kind="param", n=n, b=b, ranges={"nu": [0.5, 2.0], "mu": [-1.0, 1.0]},
                          user={"mu": [float(3 * j + 1) for j in range(n)]}),
                 ]
+                if mode == "eager":
+                    cfgs.append(dict(kind="param", n=n, b=b, ranges={"nu": [0.5, 2.0], "mu": [-1.0, 1.0], "xi": [3.0, 4.0]},
+                                     user={"mu": [float(3 * j + 1) for j in range(n)]}, keydict=True))
                 if mode == "eager" and n >= 2:
                     # n_start / nt_start are "hidden from the user" (ignored) when no RAR is requested: passing them must not
                     # change the epoch
